@@ -326,7 +326,7 @@ def dedup_mutations():
 def c04(ctx):
     import random
     ctx.rule = ("cases = pending-list histories enumerated by TLC from AgentDedup's environment action (repeats, permutations, overlapping "
-                "subsets; <=3 replies of <=3 IDs over 3 IDs) replayed against the real agent binary through a scripted fake proxy, window-edge "
+                "subsets, failing list calls; <=3 list calls of <=3 IDs over 3 IDs) replayed against the real agent binary through a scripted fake proxy, window-edge "
                 "scenarios with 999/1000 distinct IDs, and bursts of clients against the real proxy with foreign pollers; distinct = distinct history shapes" + "; repeated under agent configurations enumerated by TLC from AgentConfig.tla (the default and configurations within two property-neutral flags of it: time-out, shim, banner, sessions, health, debug, grace, VM identity, identity flags)")
     ctx.assumptions = ["side condition of the property: at most 1000 distinct IDs outstanding (window scenarios beyond it are information only)",
                        "timing of fetch/upload relative to later list replies is varied by seeded delays, not enumerated on the real code (TLC enumerates it in the model)"]
@@ -336,6 +336,7 @@ def c04(ctx):
         tlc_must_hold(ctx, "AgentDedup", "AgentDedup_MCbig.cfg", timeout=1500)
     tlc_must_fail(ctx, "AgentDedup", "AgentDedup_Attack_NoDedup.cfg")
     tlc_must_fail(ctx, "AgentDedup", "AgentDedup_Attack_Window.cfg")
+    tlc_must_fail(ctx, "AgentDedup", "AgentDedup_Attack_ForgetOnFailure.cfg")
     tlc_must_hold(ctx, "Relay", "Relay_MC.cfg")
     tlc_must_fail(ctx, "Relay", "Relay_Attack_IdCollision.cfg")
     gen = tlc_generate(ctx, "AgentDedupGen", "AgentDedupGen.cfg", "dedup_histories.json")
@@ -344,7 +345,8 @@ def c04(ctx):
     n = 3000 if thorough else 160
     sample = rnd.sample(allh, min(n, len(allh)))
     # always include the shapes that matter most: immediate repeat, repeat across replies, permutation
-    must = [[["a", "a"]], [["a"], ["a"]], [["a", "b"], ["b", "a"]], [["a", "b", "a"], ["a"]], [["a"], ["b"], ["a"]]]
+    must = [[["a", "a"]], [["a"], ["a"]], [["a", "b"], ["b", "a"]], [["a", "b", "a"], ["a"]], [["a"], ["b"], ["a"]],
+            [["a"], [], ["a"]], [["a", "b"], [], ["b", "a"]], [[], ["a"], ["a"]], [["a"], [], [], ["a", "b"]]]   # [] = a list call that fails
     cases = {"histories": must + sample, "window": [999, 1000] + ([1001] if thorough else [])}
     cpath = os.path.join(ctx.scratch, "dedup_cases.json")
     json.dump(cases, open(cpath, "w"))
@@ -964,6 +966,14 @@ def c10(ctx):
                   {"Session": "S1", "Host": "h1.example.com", "Path": "/", "Op": "none", "Extra": "same-name-as-jar"},
                   {"Session": "N", "Host": "h1.example.com", "Path": "/", "Op": "set", "Extra": "none"},
                   {"Session": "N", "Host": "h1.example.com", "Path": "/", "Op": "none", "Extra": "none"}])
+    # histories inside one session: every ordered pair (thorough: triple) of responses that carry the same cookie name and
+    # value with different attributes, then reads under three paths - what a jar does with a cookie depends on what it holds
+    same = sorted(dom.get("sameop", []))
+    import itertools
+    for ops in itertools.product(same, repeat=3 if thorough else 2):
+        h = [{"Session": "S1", "Host": "h1.example.com", "Path": "/a/b", "Op": o, "Extra": "none"} for o in ops]
+        h += [{"Session": "S1", "Host": "h1.example.com", "Path": p, "Op": "none", "Extra": "none"} for p in ("/a/b", "/other", "/")]
+        hists.append(h)
     for _ in range(3000 if thorough else 300):
         n = rnd.randint(3, 7)
         hists.append([{"Session": rnd.choice(dom["session"]), "Host": rnd.choice(dom["host"]), "Path": rnd.choice(dom["path"]),
@@ -1111,7 +1121,7 @@ def c11(ctx):
 def c12(ctx):
     import random
     ctx.rule = ("cases = call sequences of length <= 3 over {open, data, poll, close} x {valid, unknown, closed, malformed, wrong type} + {backend-send, backend-close} "
-                "enumerated by TLC (4368 sequences; seeded sample quick 150 / thorough 2500 plus fixed shapes), and gated concurrent pairs (data racing close, close "
+                "enumerated by TLC (4368 sequences; seeded sample quick 150 / thorough 2500 plus fixed shapes; and 3750 histories of 4-5 well-formed steps on one session, sample 90 / 1500), and gated concurrent pairs (data racing close, close "
                 "racing close) plus an ungated stress in a -race child process; distinct = distinct sequences")
     ctx.assumptions = ["a poll on a session with nothing pending is preceded by a backend message (an empty poll legitimately waits 20 s)",
                        "a panic recovered in a harness call goroutine counts as a panic: the agent's workers are bare goroutines"]
@@ -1122,8 +1132,14 @@ def c12(ctx):
     must = [["open", "data-valid", "close-valid"], ["open", "close-valid", "data-closed"], ["open", "close-valid", "close-closed"],
             ["open", "backend-send", "backend-close", "poll-valid"], ["backend-close", "poll-valid", "poll-valid"], ["open", "backend-close", "data-valid"],
             ["close-valid", "poll-closed", "data-closed"], ["data-malformed", "poll-malformed", "close-malformed"], ["data-wrongtype", "data-unknown", "poll-unknown"]]
-    seqs = must + rnd.sample(cases["seqs"], 2500 if thorough else 150)
-    ctx.extra["sequences_enumerated_by_tlc"] = len(cases["seqs"])
+    # histories: something an earlier step left behind decides a later answer (a refused data call in front of a poll with a
+    # backlog, a rejected close in front of a valid one, ...)
+    must += [["open", "backend-send", "backend-send", "backend-close", "data-valid", "poll-valid", "poll-valid"],
+             ["close-unknown", "open", "close-valid", "poll-unknown"], ["close-closed", "open", "data-valid", "close-valid"],
+             ["poll-unknown", "open", "backend-send", "poll-valid", "close-valid"], ["data-unknown", "open", "data-valid", "backend-send", "poll-valid"]]
+    hist = [["open"] + h for h in cases.get("histseqs", [])]
+    seqs = must + rnd.sample(cases["seqs"], 2500 if thorough else 150) + rnd.sample(hist, min(len(hist), 1500 if thorough else 90))
+    ctx.extra["sequences_enumerated_by_tlc"] = len(cases["seqs"]) + len(hist)
     cpath = os.path.join(ctx.scratch, "ws_cases.json")
     json.dump({"seqs": seqs, "urls": []}, open(cpath, "w"))
     go_build_harness(ctx)
